@@ -595,6 +595,9 @@ class LibMixin:
                     return [(st, VBuiltin(f"{h.cls[1]}.{name}", v))]
                 if any(c_[1] == "StringIO" for c_ in load.mro(h.cls[0], h.cls[1])) and self.class_attr(h.cls[0], h.cls[1], name) is None and name not in ("getvalue", "read", "seek", "tell", "close"):
                     return [self.raised(st, "AttributeError", f"'{h.cls[1]}' object has no attribute '{name}'")]
+                if any(c_[1] == "StringIO" for c_ in load.mro(h.cls[0], h.cls[1])) and name in ("getvalue", "read", "seek", "tell", "close", "write", "truncate", "flush"):
+                    # a repo subclass of io.StringIO (LimitedStringIO): inherited library methods
+                    return [(st, VBuiltin(f"StringIO.{name}", v))]
                 if name in h.field_sorts or h.field_sorts.get("*"):
                     val = _fresh_of_sort(h.field_sorts.get(name, h.field_sorts.get("*")), f"{h.name or h.cls[1]}.{name}")
                     h.fields[name] = val
